@@ -247,9 +247,12 @@ CHECKS = {
                  "fault cases: prefixes only, handler returns. Plus a datagram upstream (udp/): request out, 1-4 reply datagrams of 1 B..32 KiB back whole and in order; and an upstream "
                  "whose second peer refuses at first with retries configured: every connection opened to the first peer, also by the attempts given up, is closed when the handler has returned. Non-trivial = both directions non-empty with data sent after the other side's EOF, or >= 2 peers, or prefetched bytes."),
         "assumptions": ["interleavings of the relay goroutines are sampled", "downstreams without half-close (behind proxy_protocol/throttle, UDP) are outside the 'wherever the transport offers' clause"],
-        "min_classes": {"quick": {"C03/tls": 40, "C03/unix": 40, "C03/fault": 20, "C03/half-close-with-data-after-eof": 60, "C03/peers/3": 20, "C03/prefetched": 40, "C03/upstream-tls": 40, "C03/tls12-close-with-last-record": 8, "C03/udp-upstream": 200, "C03/retried-attempts": 200}},
+        "min_classes": {"quick": {"C03/tls": 40, "C03/unix": 40, "C03/fault": 20, "C03/half-close-with-data-after-eof": 60, "C03/peers/3": 20, "C03/prefetched": 40, "C03/upstream-tls": 40, "C03/tls12-close-with-last-record": 8, "C03/udp-upstream": 200, "C03/retried-attempts": 120}},
         "runs": [
-            {"name": "relay", "pkg": "./c03", "run": ".", "rapid_checks": {"quick": 100, "thorough": 5000},
+            {"name": "relay", "pkg": "./c03", "run": "TestRelay|TestUDPUpstream", "rapid_checks": {"quick": 100, "thorough": 5000},
+             "shards": {"quick": 4, "thorough": 16}, "timeout": {"quick": 600, "thorough": 7200}},
+            # every case of this one lasts a few hundred milliseconds of real time (a peer that appears late): fewer cases
+            {"name": "retries", "pkg": "./c03", "run": "TestRetriedAttemptsCloseTheirConnections", "rapid_checks": {"quick": 60, "thorough": 800},
              "shards": {"quick": 4, "thorough": 16}, "timeout": {"quick": 600, "thorough": 7200}},
         ],
     },
